@@ -401,7 +401,7 @@ func (ex *Exec) finish(st *State, kind, msg string, pos token.Pos) {
 			o.Msg = kind + ": " + msg
 		} else {
 			o.Model = m
-			if ex.satVCs[kind+msg] < 1 && len(ex.vcs) < 48 {
+			if ex.satVCs[kind+msg] < 1 && len(ex.vcs) < 24 {
 				ex.satVCs[kind+msg]++
 				ex.vcs = append(ex.vcs, vcRec{Standalone(st.pc, nil), "sat", kind + ": " + msg})
 			}
